@@ -2,7 +2,7 @@
    Model: C12/Model.v (mirrors utils.str.byteTextWrap/splitBytes, ircutils.FormatContext/
    FormatParser/wrap, NestedCommandsIrcProxy.reply, _makeReply, Misc.more).
    Proofs: Wrap.v, More.v, Fits.v, Plain.v, Total.v.
-   The model follows the repaired code (fix: commits for C12.F12, F13, F40, F41, F42). *)
+   The model follows the repaired code (fix: commits for C12.F12, F13, F40, F41, F42, F43). *)
 From Coq Require Import List NArith ZArith.
 Import ListNotations.
 Require Import Base.Wire Base.PyStr C12.Model C12.Wrap C12.More C12.Fits C12.Plain C12.Total
@@ -63,36 +63,15 @@ Print Assumptions C12_more_progress.
                       Forall (fun line => line_fits k line = true) (sent ++ rev L).
    The accounting steps, each at the strength the repaired code reaches: *)
 
-(* (a) allowedLength.  Full statement: for every reply configuration (prefix/target/nick, channel or
-       query, private=/to=/notice= keywords, reply.inPrivate/withNotice), a payload within allowedLength
-       gives a line within 512 bytes.  It holds on the exact decidable domain env_ok (what _makeReply()
-       puts around the payload is covered by what reply() reserved), which contains every plain reply
-       in a channel or a query whatever the strings (repair of F41/F42) and private=True with to=; it
-       is refuted for private=True without to= in a channel and for to=<longer nick> (finding F43). *)
-Theorem C12_line_fits_on_domain : forall k p,
-  env_ok k = true -> c_length k = 0%N -> nonempty (strip [1%N] p) = true ->
+(* (a) allowedLength (full since the repairs of F41/F42 and F43): for every reply configuration --
+       prefix/target/nick of any code points, channel or query, private=/to=/notice= keywords,
+       reply.inPrivate/withNotice -- a payload within allowedLength gives a line within 512 bytes
+       (reply() asks _makeReply() for the recipient and reserves "nick: " for `to or msg.nick`) *)
+Theorem C12_line_fits : forall k p,
+  c_length k = 0%N -> nonempty (strip [1%N] p) = true ->
   (Z.of_N (blen p) <= allowed_length k)%Z -> line_fits k (makeReply k p) = true.
-Proof. exact line_fits_on_domain. Qed.
-Print Assumptions C12_line_fits_on_domain.
-
-Theorem C12_env_ok_plain_reply : forall k,
-  c_private k = false -> c_inPrivate k = false -> c_to k = None -> env_ok k = true.
-Proof. exact env_ok_plain_reply. Qed.
-Print Assumptions C12_env_ok_plain_reply.
-
-Theorem C12_env_ok_private_to : forall k t, c_private k = true -> c_to k = Some t -> env_ok k = true.
-Proof. exact env_ok_private_to. Qed.
-Print Assumptions C12_env_ok_private_to.
-
-Theorem C12_line_fits_refuted :
-  (env_ok k_private_chan = false /\ c_length k_private_chan = 0%N /\
-   (Z.of_N (blen (room_payload k_private_chan)) <= allowed_length k_private_chan)%Z /\
-   line_fits k_private_chan (makeReply k_private_chan (room_payload k_private_chan)) = false) /\
-  (env_ok k_to_nick = false /\ c_length k_to_nick = 0%N /\
-   (Z.of_N (blen (room_payload k_to_nick)) <= allowed_length k_to_nick)%Z /\
-   line_fits k_to_nick (makeReply k_to_nick (room_payload k_to_nick)) = false).
-Proof. exact line_fits_refuted. Qed.
-Print Assumptions C12_line_fits_refuted.
+Proof. exact line_fits_full. Qed.
+Print Assumptions C12_line_fits.
 
 (* (b) the "(XX more messages)" reserve (repair of F12) covers the suffix for 1..99 pending
        messages -- every count the two-digit text provides for; a three-digit count is still over *)
@@ -156,8 +135,8 @@ Proof. exact visible_text_refuted_outside. Qed.
 Print Assumptions C12_visible_text_refuted.
 
 (* ---- end to end, plain text ----
-   For every reply configuration in env_ok (every plain reply in a channel or a query whatever the
-   prefix/target/nick; private=True with to=), every mores.length/maximum/instant and Misc.mores
+   For every reply configuration (channel or query, any prefix/target/nick, private=/to=/notice=
+   keywords, reply.inPrivate/withNotice), every mores.length/maximum/instant and Misc.mores
    setting allowed by plain_dom (splitting on; the chunk budget between 25 bytes and the room of
    the line -- always true for mores.length = 0 unless the hostmask leaves less than 25 bytes; at
    most 100 chunks) and every non-empty text without \x01 \x02 \x03 \x0f \x16 \x1f:
